@@ -254,6 +254,12 @@ def c09_scope(tier):
     P.append(("neg-var", 'Signal s = ("signal-A", 1);\nint k = 0;\nint j = 3;\nEntity a = place("small-lamp", -k, -(j * 2));\na.enable = s > 0;\nEntity b = place("small-lamp", -(k + 0), 4);\nb.enable = s > 1;\n'))
     P.append(("user-poles", 'Signal s = ("signal-A", 1);\nEntity l = place("small-lamp", 0, 0);\nl.enable = s > 0;\nEntity p1 = place("small-electric-pole", 15, 4);\n'
               'Entity p2 = place("big-electric-pole", 25, 9);\nEntity p3 = place("medium-electric-pole", 3, 3);\n'))
+    P.append(("relay-near-machine", 'Entity ch = place("steel-chest", 0, 2, {read_contents: 1});\nEntity l = place("small-lamp", 30, 2);\n'
+              'l.enable = ch.output["iron-plate"] > 5;\nEntity m = place("assembling-machine-1", 8, 0);\n'))
+    P.append(("relay-near-stop", 'Entity ch = place("steel-chest", 0, 2, {read_contents: 1});\nEntity l = place("small-lamp", 30, 2);\n'
+              'l.enable = ch.output["iron-plate"] > 5;\nEntity t = place("train-stop", 8, 1);\n'))
+    P.append(("relay-near-machines-row", 'Signal s = ("signal-A", 1);\nEntity a = place("small-lamp", 0, 1);\na.enable = s > 0;\nEntity b = place("small-lamp", 44, 1);\nb.enable = s > 1;\n'
+              + "".join(f'Entity m{k} = place("assembling-machine-1", {6 + 7 * k}, 0);\n' for k in range(5))))
     P.append(("props", 'Entity a = place("small-lamp", 0, 0, {use_colors: 1});\nEntity b = place("inserter", 2, 0, {direction: 4});\n'))
     if tier != "quick":
         P.append(("grid40", "for i in 0..8 {\n  for j in 0..5 {\n    Entity l = place(\"small-lamp\", i * 2, j * 2);\n  }\n}\n"))
